@@ -1485,6 +1485,10 @@ def dispatch(f, /, *a, **k):
         return SymStream(a[0]) if a else SymStream()
     if f is bytearray and not a:
         return SByteArray()
+    if f is builtins.bytes and _real_len(a) == 1 and not k:
+        bm = getattr(_real_type(a[0]), "__bytes__", None)
+        if _real_type(bm) is _types.FunctionType and _real_type(a[0]) not in PROXY_TYPES:
+            return bm(a[0])  # Python-level __bytes__ (Structure, UnionProxy): its result may be symbolic
     symargs = False
     for x in a:
         if is_sym(x):
